@@ -87,6 +87,8 @@ def gen_joint(rng, profile="general"):
         ns = int(rng.integers(2, 7))
     W, K = case["W"], case["K"]
     Ts = [int(W + rng.integers(3, 60)) for _ in range(ns)]
+    if rng.random() < 0.2 and ns > 1:
+        Ts = [Ts[0]] * ns                          # all series of one shape
     if rng.random() < 0.3 and ns > 1:
         Ts[int(rng.integers(0, ns))] = W           # a series with exactly W rows (one window)
     while sum(t - W + 1 for t in Ts) < max(K + 2, 3 * K):
